@@ -21,6 +21,7 @@ mod c17;
 mod c18;
 mod c19;
 mod c20;
+mod fswatch;
 mod net;
 mod sched;
 mod tl;
